@@ -107,12 +107,12 @@ type followerController struct {
 	syncCond         concurrent.ConditionContext
 	applyEntriesCond concurrent.ConditionContext
 	applyEntriesDone chan any
-	// Held while a round of committed entries is applied (that happens outside the
-	// controller mutex) and while a snapshot replaces the log and the database
-	applyMutex sync.Mutex
 	closeStreamWg    concurrent.WaitGroup
 	log              *slog.Logger
 	config           Config
+	// Held while a round of committed entries is applied (that happens outside the
+	// controller mutex) and while a snapshot replaces the log and the database
+	applyMutex sync.Mutex
 
 	writeLatencyHisto metric.LatencyHistogram
 }
@@ -367,6 +367,12 @@ func (fc *followerController) Replicate(stream proto.OxiaLogReplication_Replicat
 	if fc.closeStreamWg != nil {
 		fc.Unlock()
 		return constant.ErrLeaderAlreadyConnected
+	}
+
+	if fc.isClosed() {
+		// Closing the controller releases the log
+		fc.Unlock()
+		return constant.ErrAlreadyClosed
 	}
 
 	// Entries appended through a previous stream that ended before their sync round are
